@@ -373,7 +373,7 @@ fn mode_worker(args: &[String]) -> i32 {
         let ix: u64 = arg_value(args, "--index").and_then(|s| s.parse().ok()).unwrap_or(0);
         let e = if ix >= SCENARIO_BASE {
             let k = ix - SCENARIO_BASE;
-            if (SCENARIO_KINDS..2 * SCENARIO_KINDS).contains(&k) {
+            if (SCENARIO_KINDS..2 * SCENARIO_KINDS).contains(&k) || k == SCENARIO_SYSTEMATIC_ODD_ENV {
                 grex_sim::penv::ProcEnv {
                     vars: vec![("LANG".into(), "tr_TR.UTF-8".into()), ("LC_ALL".into(), "tr_TR.UTF-8".into()), ("RAYON_NUM_THREADS".into(), "3".into())],
                     cpus: 3,
@@ -401,7 +401,7 @@ fn mode_worker(args: &[String]) -> i32 {
     let out = if index >= SCENARIO_BASE {
         let runs = scenario_runs(index - SCENARIO_BASE, verif_seed);
         let k = index - SCENARIO_BASE;
-        if k >= SCENARIO_MEMORY_LIMITED {
+        if (SCENARIO_MEMORY_LIMITED..SCENARIO_SYSTEMATIC_ODD_ENV).contains(&k) {
             // failing allocations: from here on the address space may grow only by the margin (plus one thread stack)
             let margin = SCENARIO_MEMORY_MARGINS_MB[((k - SCENARIO_MEMORY_LIMITED) as usize) % SCENARIO_MEMORY_MARGINS_MB.len()];
             limit_address_space_to_margin(margin);
@@ -1070,7 +1070,7 @@ fn spawn_worker(verif_seed: u64, tier: &str, index: u64, n_sys: u64, sample: boo
     if sample {
         cmd.arg("--sample");
     }
-    if index >= SCENARIO_BASE + SCENARIO_MEMORY_LIMITED {
+    if (SCENARIO_BASE + SCENARIO_MEMORY_LIMITED..SCENARIO_BASE + SCENARIO_SYSTEMATIC_ODD_ENV).contains(&index) {
         // one malloc arena, so that a new thread does not reserve 64 MiB of address space of its own
         cmd.env("MALLOC_ARENA_MAX", "1");
     }
@@ -1154,7 +1154,7 @@ fn mode_run(args: &[String]) -> i32 {
             if res.is_err() {
                 res = spawn_worker(verif_seed, &tier, i, n_sys, sample, 3 * timeout_first);
             }
-            if res.is_err() && i >= SCENARIO_BASE + SCENARIO_MEMORY_LIMITED {
+            if res.is_err() && (SCENARIO_BASE + SCENARIO_MEMORY_LIMITED..SCENARIO_BASE + SCENARIO_SYSTEMATIC_ODD_ENV).contains(&i) {
                 // allocation failure aborts the process; running out of the (deliberately small) address space is
                 // not a verdict about the property: the episode is not judged
                 mem_limited_not_judged.fetch_add(1, Ordering::SeqCst);
@@ -1422,7 +1422,7 @@ fn mode_run(args: &[String]) -> i32 {
         let meta = json!({
             "property": "C10", "engine": "simhist", "verif_seed": verif_seed.to_string(), "tier": tier, "episode": ep,
             "process_env": results.get(ep).map(|r| r["process_env"].clone()).unwrap_or(Value::Null),
-            "address_space_margin_mb": if *ep >= SCENARIO_BASE + SCENARIO_MEMORY_LIMITED {
+            "address_space_margin_mb": if (SCENARIO_BASE + SCENARIO_MEMORY_LIMITED..SCENARIO_BASE + SCENARIO_SYSTEMATIC_ODD_ENV).contains(ep) {
                 json!(SCENARIO_MEMORY_MARGINS_MB[((*ep - SCENARIO_BASE - SCENARIO_MEMORY_LIMITED) as usize) % SCENARIO_MEMORY_MARGINS_MB.len()])
             } else {
                 Value::Null
